@@ -183,8 +183,19 @@ pub struct Obs {
     pub files: Vec<(String, usize)>,
 }
 
+pub struct LedgerView<'a> {
+    pub blockchain: &'a Arc<RwLock<Blockchain>>,
+    pub mempool: &'a Arc<RwLock<Mempool>>,
+    pub wallet: &'a Arc<RwLock<Wallet>>,
+    pub io: &'a MemIO,
+}
+
 impl Obs {
     pub fn take(n: &LedgerNode) -> Obs {
+        Obs::take_view(&LedgerView { blockchain: &n.blockchain, mempool: &n.mempool, wallet: &n.wallet, io: &n.io })
+    }
+
+    pub fn take_view(n: &LedgerView) -> Obs {
         let bc = n.blockchain.try_read().expect("bc lock busy");
         let mp = n.mempool.try_read().expect("mp lock busy");
         let w = n.wallet.try_read().expect("wallet lock busy");
